@@ -1,5 +1,6 @@
 import SqlgrepModel.Lemmas.LexPos
 import SqlgrepModel.Lemmas.LexNear
+import SqlgrepModel.Lemmas.LexNearPiece
 import SqlgrepModel.Lemmas.LexTables
 /-
 C14 — parsing is total: any text yields a statement or a located error — **tokenizer half**.
@@ -78,6 +79,20 @@ not, inside the text or not — `extract_near` performs no out-of-range slice ac
 theorem extract_near_total (o : Oracles) (loc : Loc) (text : List Char) : ∃ s, extractNear o loc text = .text s :=
   extractNear_text o loc text
 
+/-- **The excerpt is a piece of the located line**: for every text and every location whose line `str::lines()`
+yields, the excerpt reads like a contiguous part of that line — `off` characters in, `len` characters long, inside the
+line — in which whitespace characters may be shown as a space (`SimChars`: equal character by character, or a space
+for a whitespace character).  (Consecutive words of a line are separated by exactly one whitespace character:
+`Lemmas/LexNearPiece.lean`.)  For a location whose line does not exist the excerpt is empty. -/
+theorem excerpt_is_piece (o : Oracles) (loc : Loc) (text line s : List Char) (hl : (lines text)[loc.line]? = some line)
+    (h : extractNear o loc text = .text s) :
+    ∃ off len, off + len ≤ line.length ∧ SimChars o s ((line.drop off).take len) :=
+  extractNear_piece o loc text line s hl h
+
+theorem excerpt_empty_without_line (o : Oracles) (loc : Loc) (text : List Char) (hl : (lines text)[loc.line]? = none) :
+    extractNear o loc text = .text [] := by
+  unfold extractNear; rw [hl]
+
 /-- in particular for the location of a tokenizer error -/
 theorem error_excerpt (o : Oracles) (text : List Char) (loc : Loc) (e : LexErr) (_ : tokenize o text = .error loc e) :
     ∃ s, extractNear o loc text = .text s := extract_near_total o loc text
@@ -95,5 +110,8 @@ example : tokenize Tables.asciiOnly "a\n".toList = .ok [⟨⟨0, 0⟩, .ident ['
     lines "a\n".toList = [['a']] ∧ textLines "a\n".toList = [['a'], []] := by decide
 
 example : extractNear Tables.asciiOnly ⟨0, 7⟩ "select 1.2.3 from t".toList = .text "select 1.2.3 from".toList := by decide
+
+/-- a tab between the words is shown as a space: the excerpt reads like the piece, it is not always equal to it -/
+example : extractNear Tables.asciiOnly ⟨0, 3⟩ "ab\tcd ef".toList = .text "ab cd".toList := by decide
 
 end Sqlgrep.Props.C14Lex
